@@ -851,9 +851,9 @@ def _run(ctx):
             ctx.traces += len(cases)
         # simulated deeper histories: -simulate num is per worker; the emitting invariant fires for every successor of
         # the last state (one per letter); keep a few siblings per walk
-        nsim = ctx.pick(640, 12000)
+        nsim = ctx.pick(640, 8000)
         w = ctx.pick(4, 8)
-        keep = ctx.pick(8, 12)
+        keep = ctx.pick(8, 10)
         nletters = len(consts['lines'])
         res = ctx.tlc('Gen_Shell', 'Gen_ShellSim.cfg', leg='GEN-sim', simulate='num=%d' % max(1, nsim // (w * keep)), depth=14,
                       seed=ctx.seed, workers=w)
@@ -882,7 +882,7 @@ def _run(ctx):
 
     # ---- C2S
     if not legs or 'C2S' in legs:
-        c2s(ctx, nledgers=ctx.pick(12, 120), per_ledger=ctx.pick(6, 8), maxlen=40, nproc=nproc)
+        c2s(ctx, nledgers=ctx.pick(12, 90), per_ledger=ctx.pick(6, 8), maxlen=40, nproc=nproc)
     ctx.exhaustive = False
 
 
